@@ -183,8 +183,8 @@ PROPS["C05"] = dict(
     rule=STORE_RULE, trusted=STORE_TRUST, assumptions=["mtime is the cached clock (pinned by the harness); boundary mtime = cutoff follows the code (removed)"],
 )
 PROPS["C17"] = dict(
-    lean_targets=["Chihaya.Props.C17", "Chihaya.Props.Redis"],
-    props_files=["Chihaya/Props/C17.lean", "Chihaya/Props/Redis.lean"],
+    lean_targets=["Chihaya.Props.C17", "Chihaya.Props.Redis", "Chihaya.Props.RedisConc"],
+    props_files=["Chihaya/Props/C17.lean", "Chihaya/Props/Redis.lean", "Chihaya/Props/RedisConc.lean"],
     streams=[dict(name="C17", quick=18000, thorough=600000), dict(name="C04", quick=4000, thorough=100000)],
     rule=STORE_RULE + "; the exported gauges are read after every mutating step; plus the concurrent stream of C04 (contended same-peer micro-rounds, totals read after each group)", trusted=STORE_TRUST, assumptions=["no storage failures"],
 )
